@@ -471,8 +471,9 @@ def k3_cli(ctx):
     exists = ctx.flag("file_exists")
     size_kind = ctx.choice("size", 3)          # small, exactly limit, above limit
     n_res = ctx.choice("n_results", 3)
-    fail_at = ctx.choice("failing_stage", 5)   # 0 none, 1 read_file raises, 2 result k raises in observer,
-    #                                            3 unserialisable value inside payload, 4 extraction error
+    fail_at = ctx.choice("failing_stage", 6)   # 0 none, 1 read_file raises, 2 result k raises in observer,
+    #                                            3 unserialisable value inside payload, 4 extraction error,
+    #                                            5 the LAST result holds a character stdout cannot encode
     as_json = ctx.flag("json")
     as_unit = ctx.flag("json_unit") if not as_json else False
     binary = ctx.flag("binary")
@@ -490,6 +491,8 @@ def k3_cli(ctx):
         results.append(PlainTextContent(content=f"text {i}"))
     if fail_at == 2 and results:
         results[-1] = Bad(content="x")
+    if fail_at == 5 and results:
+        results[-1] = PlainTextContent(content="caf\u00e9 \udc80")
     if fail_at == 3 and results:
         # a value the JSON encoder cannot write, late in the payload (after output has started)
         results[-1] = XlsxContent(sheets=[XlsxSheet(name="S", data=[["ok", 1], [object()]], text="t")])
@@ -520,7 +523,16 @@ def k3_cli(ctx):
 
         def __fspath__(self):
             return self.p
-    out, err = io.StringIO(), io.StringIO()
+    class AsciiOut(io.StringIO):
+        """a stdout whose encoding cannot represent every character (C locale / redirected to a pipe): write()
+        fails on such text, as TextIOWrapper does, after earlier writes have gone through"""
+        encoding = "ascii"
+
+        def write(self, text):
+            text.encode("ascii")
+            return io.StringIO.write(self, text)
+
+    out, err = (AsciiOut() if fail_at == 5 else io.StringIO()), io.StringIO()
     argv = ["some/file.txt"] + (["--json"] if as_json else []) + (["--json-unit"] if as_unit else []) + \
         (["--binary"] if binary else [])
     import sys
@@ -544,7 +556,7 @@ def k3_cli(ctx):
         ctx.require(se.count("\n") == 1 and se.endswith("\n") and len(se) > 1, "failure-diagnostic-not-one-line", **info)
     should_fail = (not exists) or size_kind == 2 or n_res == 0 or fail_at in (1, 4) or \
         (fail_at == 2 and n_res > 0 and (as_unit or not (as_json))) or (fail_at == 3 and n_res > 0 and (as_json or as_unit)) or \
-        (binary and not (as_json or as_unit))
+        (binary and not (as_json or as_unit)) or (fail_at == 5 and n_res > 0 and not (as_json or as_unit))
     if not should_fail:
         ctx.require(rc == 0, "valid-run-failed", **info)
 
